@@ -25,6 +25,7 @@ FORMS = {                                  # name -> (instruction word, r_type, 
     "bcond": (0x5400000e, R_CONDBR19, False),   # b.al
     "tbz": (0x36000000, R_TSTBR14, False),      # tbz w0, #0 (x0 = 0 in the walker: taken)
 }
+DEEP_PAD = 130 * (1 << 20)
 KINDS = ("local", "global", "align32", "custom", "plt", "ifunc")
 CALLEE_MARK = 0x52800000 | (0xCA11 << 5)   # movz w0, #0xca11
 DECOY_MARKS = {"decoy_a": 0x52800000 | (0xDEC1 << 5), "decoy_z": 0x52800000 | (0xDEC2 << 5)}
@@ -178,6 +179,18 @@ def build_inputs(d, blocks, kind, form, pad_path, so_path, decoys=False, caller_
             add_caller(o, t, {x: o.symbol(x) for x in targets})
         elif kind == "global":
             add_defs(o, o.section(".text", flags=AX, align=text_align, data=body))
+        elif kind == "deep":
+            # The callee lives DEEP inside a big object: DEEP_PAD bytes of retained .text between the
+            # function and the end of its object that faces the caller (a caller in front: pad, then
+            # the function; a caller behind: the function, then the pad). The object's start / end is
+            # near the caller while the symbol itself is out of range.
+            fwd = [x[0] for x in blocks].index("caller") < i
+            secs = [o.section(".text.d0", flags=AX | (G.SHF_GNU_RETAIN if fwd else 0), align=4, data=b"" if fwd else body),
+                    o.section(".text.d1", flags=AX | (0 if fwd else G.SHF_GNU_RETAIN), align=4, data=body if fwd else b"")]
+            add_defs(o, secs[1 if fwd else 0])
+            write_sparse(o, os.path.join(d, n), {secs[0 if fwd else 1]: DEEP_PAD})
+            names.append(n)
+            continue
         elif kind in ("align32", "custom"):
             o.section(".text", flags=AX | G.SHF_GNU_RETAIN, align=4, data=FILLER)
             if kind == "align32":
